@@ -111,6 +111,14 @@ def readFromClosing (chunks : List Bytes) (closeAt : Nat) : List Bytes × Nat ×
   if closeAt = 0 ∨ closeAt > chunks.length then (chunks, chunks.flatten.length, false)
   else (chunks.take (closeAt - 1), (chunks.take closeAt).flatten.length, true)
 
+/-- Channel.ReadFrom on a queued channel in non-blocking mode whose sender is stalled, with `free`
+    free queue slots: the chunks that fit are queued; the first one that does not is refused with
+    ErrAsyncNoSpace at once (no waiting, no retry), `n` counting what was read from the reader.
+    Result: (chunks queued, n, the no-space error was returned). Chunks are non-empty. -/
+def readFromNoSpace (chunks : List Bytes) (free : Nat) : List Bytes × Nat × Bool :=
+  if chunks.length ≤ free then (chunks, chunks.flatten.length, false)
+  else (chunks.take free, (chunks.take (free + 1)).flatten.length, true)
+
 /-- utils.CountOf -/
 def countOf (bs : List Bytes) : Nat := (bs.map List.length).foldl (· + ·) 0
 
